@@ -22,6 +22,8 @@ def patches_for(prop):
             m = json.load(open(meta))
         except Exception:
             continue
+        if m.get("obsolete"):
+            continue  # the change no longer breaks the property on the current tree (see meta.json)
         props = m.get("caught_by") or [m.get("property")]
         if prop in props:
             out.append(("seeded/" + os.path.basename(os.path.dirname(meta)), os.path.join(os.path.dirname(meta), "patch.diff")))
